@@ -20,7 +20,7 @@ import numpy as np  # noqa: E402
 TIERS = {
     # case_cap: cases per specialisation; root_cap: scalar tuples per specialisation; ext: largest index the
     # definition may touch in an input / output; fills: guard and filler byte patterns (nuisance dimension)
-    "quick": dict(case_cap=30000, root_cap=2000, in_ext=16, out_ext=48, fills=(0x00, 0xFF), raw_cap=60000),
+    "quick": dict(case_cap=24000, root_cap=2000, in_ext=16, out_ext=48, fills=(0x00, 0xFF), raw_cap=60000),
     "thorough": dict(case_cap=120000, root_cap=4000, in_ext=24, out_ext=64, fills=(0x00, 0xFF, 0xA5),
                      raw_cap=200000),
 }
